@@ -356,14 +356,17 @@ def _budget_models(ctx: Ctx) -> int:
                     bad = f"while there is no best individual is_done is {rv}"
             ctx.ob("C14.R3", d, d.node, f"{c.name}.is_done is False while there is no best individual", False if bad else (None if und else True), bad or und or "")
             bad = und = None
-            for comp, agg, want in ((5.0, -5.0, True), (5.00005, -5.00005, True), (6.0, -6.0, False), (-5.0, 5.0, False), (4.0, 5.0, False)):
+            # the tolerance is absolute: the same small distance counts as reached for a target of 0, of 5 and of 1000
+            for target, comp, agg, want in ((5.0, 5.0, -5.0, True), (5.0, 5.00005, -5.00005, True), (5.0, 6.0, -6.0, False), (5.0, -5.0, 5.0, False),
+                                            (5.0, 4.0, 5.0, False), (0.0, 0.00003, -0.00003, True), (0.0, 0.5, -0.5, False),
+                                            (1000.0, 1000.00003, -1000.00003, True), (1000.0, 1000.04, -1000.04, False)):
                 fit = Obj("Fitness", {"maximizing_aggregate": agg, "fitness_components": [comp]})
-                rv, _ = run_case({"get_best_individual": Sym("best"), "get_problem": Sym("problem"), "fitness": fit}, {attr: 5.0})
+                rv, _ = run_case({"get_best_individual": Sym("best"), "get_problem": Sym("problem"), "fitness": fit}, {attr: target})
                 if rv is UNKNOWN or rv is None:
                     und = und or "result not followed"
                 elif bool(rv) != want and bad is None:
-                    bad = (f"target 5.0, best individual with fitness component {comp} (maximising aggregate {agg}): is_done is {rv}, expected {want} - "
-                           f"the target is compared with something other than the best individual's first fitness component within the tolerance")
+                    bad = (f"target {target}, best individual with fitness component {comp} (maximising aggregate {agg}): is_done is {rv}, expected {want} - "
+                           f"the target is compared with something other than the best individual's first fitness component within the (absolute) tolerance")
             ctx.ob("C14.R3", d, d.node, f"{c.name} compares best.fitness_components[0] with the target within a tolerance", False if bad else (None if und else True),
                    bad or und or "")
     return n3
